@@ -1,6 +1,8 @@
 package types
 
 import (
+	"fmt"
+
 	epochstypes "github.com/ExocoreNetwork/exocore/x/epochs/types"
 	sdk "github.com/cosmos/cosmos-sdk/types"
 	paramtypes "github.com/cosmos/cosmos-sdk/x/params/types"
@@ -40,5 +42,10 @@ func (p *Params) ParamSetPairs() paramtypes.ParamSetPairs {
 
 // Validate validates the set of params
 func (p Params) Validate() error {
+	// AllocateTokens multiplies the collected fees by (1 - CommunityTax): outside [0, 1] the
+	// validators' portions are negative or exceed the fees and DecCoins.Sub panics in BeginBlock.
+	if !p.CommunityTax.IsNil() && (p.CommunityTax.IsNegative() || p.CommunityTax.GT(sdk.OneDec())) {
+		return fmt.Errorf("community tax must be in [0, 1]: %s", p.CommunityTax)
+	}
 	return nil
 }
